@@ -246,6 +246,29 @@ pub fn install_panic_recorder() {
     std::panic::set_hook(Box::new(|info| {
         let msg = if let Some(s) = info.payload().downcast_ref::<&str>() { s.to_string() } else if let Some(s) = info.payload().downcast_ref::<String>() { s.clone() } else { "panic".to_string() };
         let loc = info.location().map(|l| format!("{}:{}", l.file().rsplit("/repo/").next().unwrap_or(l.file()), l.line())).unwrap_or_default();
-        if let Ok(mut g) = LAST_PANIC.lock() { *g = format!("{} @ {}", msg.chars().take(160).collect::<String>(), loc); }
+        // the innermost function of the crate on the stack: a key that survives line shifts
+        let bt = std::backtrace::Backtrace::force_capture().to_string();
+        let mut func = String::new();
+        let lines: Vec<&str> = bt.lines().collect();
+        for i in 0..lines.len() {
+            let l = lines[i].trim();
+            if let Some(pos) = l.find(": ") { let sym = &l[pos + 2..];
+                if sym.contains("qrlew::") && !sym.starts_with("qvh::") { func = sym.to_string(); break; } }
+        }
+        // generic parameters and closure markers are dropped
+        // `<T as Trait>::f` keeps its first level, deeper generic arguments are dropped
+        let keep = if func.starts_with('<') { 1 } else { 0 };
+        let mut f2 = String::new(); let mut depth = 0;
+        for ch in func.chars() { match ch { '<' => { depth += 1; if depth <= keep { f2.push(ch); } } '>' => { if depth <= keep && depth > 0 { f2.push(ch); } if depth > 0 { depth -= 1; } } _ => if depth <= keep { f2.push(ch); } } }
+        let f2 = f2.replace("::{{closure}}", "").replace("::{closure#0}", "").replace("::{closure#1}", "").replace("::{closure#2}", "");
+        if let Ok(mut g) = LAST_PANIC.lock() { *g = format!("{} @ {} @ {}", msg.chars().take(160).collect::<String>(), loc, f2); }
     }));
+}
+
+/// the key of a panic in the known-findings file: the start of the message (numbers dropped) and the
+/// innermost function of the crate on the stack
+pub fn panic_site(msg: &str) -> String {
+    let m = msg.split(" @ ").collect::<Vec<_>>();
+    if m.len() == 3 { let head: String = m[0].chars().take(48).collect(); let head = head.split(|c: char| c.is_ascii_digit()).next().unwrap_or("").trim().to_string();
+        format!("{} @ {}", head, if m[2].is_empty() { m[1].split(':').next().unwrap_or("") } else { m[2] }) } else { msg.chars().take(60).collect() }
 }
